@@ -228,6 +228,12 @@ def build_events():
     ev["config_set"] = lambda: _inspect(UBXMessage.config_set(1, 0, [("CFG_UART1_BAUDRATE", 9600), (0x40530001, 115200)]))
     ev["config_del"] = lambda: _inspect(UBXMessage.config_del(2, 1, ["CFG_UART1_BAUDRATE", 0x40530001]))
     ev["config_poll"] = lambda: _inspect(UBXMessage.config_poll(0, 0, ["CFG_UART1_BAUDRATE", 0x40530001]))
+    # configuration transactions: every (layers, transaction state) of both helpers - a message is a value, the
+    # helper keeps no session (start / ongoing / commit are told to the RECEIVER, not remembered by the library)
+    for lay in (1, 2):
+        for txn in (0, 1, 2, 3):
+            ev[f"cfgtxn:set:L{lay}:T{txn}"] = lambda lay=lay, txn=txn: _inspect(UBXMessage.config_set(lay, txn, [("CFG_UART1_BAUDRATE", 9600)]))
+            ev[f"cfgtxn:del:L{lay}:T{txn}"] = lambda lay=lay, txn=txn: _inspect(UBXMessage.config_del(lay, txn, [0x40530001]))
     def _mutate_nominal_list():
         m = UBXMessage("MON", "MON-SPAN", GET, version=0, numRfBlocks=1)
         lst = m.spectrum_01  # a list attribute: the message is immutable, the list object is not
@@ -794,7 +800,7 @@ def run_tier(tier, t0):
         pe = [n for n in names if n.startswith("parse:") and n.endswith("pbf=1")]
         sp = sp + [(a, b) for a in pe for b in pe if a != b]
     blocks += [("pairs", sp[i::64]) for i in range(64) if sp[i::64]]
-    sub = [n for n in names if n.startswith(("parse:GET:NAV-SAT", "build:SET:ESF-MEAS", "parse:POLL:CFG-TP5-TPX", "config_set", "fail:kw_group", "fail:midwalk_array", "read:q=1:mode=0", "parse:SET:RXM-PMP-V0", "build:SET:CFG-DAT-NUM", "helpers"))]
+    sub = [n for n in names if n.startswith(("parse:GET:NAV-SAT", "build:SET:ESF-MEAS", "parse:POLL:CFG-TP5-TPX", "config_set", "fail:kw_group", "fail:midwalk_array", "read:q=1:mode=0", "parse:SET:RXM-PMP-V0", "build:SET:CFG-DAT-NUM", "helpers", "cfgtxn:set:L1:T2", "cfgtxn:set:L1:T3", "cfgtxn:del:L1:T2", "cfgtxn:del:L1:T3"))]
     if q:
         # length-2 histories: every event followed by every event of the sub-alphabet
         firsts = [n for n in names if not (n.startswith(("parse:", "build:")) and n.split(":pbf")[0].split(":", 1)[1] not in FULL_LABELS)]
